@@ -565,7 +565,10 @@ impl TraceOracle for C10 {
             }
         }
         // reaction to own death
-        if own_down && processed {
+        // `SameIdentity` is not a rejection of the input: only change_identity may legitimately return it, so a
+        // batch or datagram that ends with it was processed (and must have dealt with the news of its death)
+        let death_processed = processed || matches!(&r.out.res, Res::Err(k) if k == "SameIdentity");
+        if own_down && death_processed {
             let rejoined = notifs(r.out).iter().any(|n| matches!(n, OwnedNotification::Rejoin(_)));
             let defunct = notifs(r.out).iter().any(|n| matches!(n, OwnedNotification::Defunct));
             let was_undead = r.before.hid.connection_state == 2;
